@@ -83,7 +83,73 @@ def t06_pua(run, fx):
                      "or left alone wrongly" % (b.path, "; ".join(bad) or "no inclusive test of both bounds found"), "%s:%s" % (b.file, b.line))
 
 
+def t06_delta(run, fx):
+    """format 4, idRangeOffset != 0: glyph = glyphIdArray value, plus idDelta modulo 65536 unless the value is 0 (missing glyph)"""
+    import sym
+    import guards
+    rule = "T06-DELTA"
+    run.rule(rule, "cmap format 4 with idRangeOffset != 0 (OpenType: 'if the value obtained from the indexing operation is not 0 (which indicates "
+                   "missingGlyph), idDelta[i] is added to it'): in Format4::glyph_id_for_id_range_offset every result computed from the "
+                   "glyphIdArray value also depends on id_delta, and the sum is only formed where the array value was compared with 0")
+    bs = [b for b in fx.bodies if b.kind != "Closure" and b.path == "tables::cmap::Format4::glyph_id_for_id_range_offset"]
+    if not bs:
+        return run.anchor_missing(rule, "tables::cmap::Format4::glyph_id_for_id_range_offset")
+    b = bs[0]
+    prov = sym.Prov(b)
+    gets = [(bi, t) for bi, t in b.calls() if (t["callee"].get("path") or "").endswith("glyph_id_array_get")]
+    if not gets:
+        return run.anchor_missing(rule, "glyph_id_array_get in the kernel")
+    gb = gets[0][0]
+    # results produced after the array read
+    results = []
+    for bi in range(len(b.blocks)):
+        if not b.reachable(bi) or not b.dominates(gb, bi):
+            continue
+        for st in b.stmts(bi):
+            if st["k"] == "assign" and st["p"]["l"] == 0 and not st["p"]["p"] and st["rv"]["k"] == "agg" and st["rv"].get("vname") == "Ok":
+                results.append((bi, st, prov.op(st["rv"]["fields"][0])))
+        t = b.term(bi)
+        if t["k"] == "call" and t["dest"]["l"] == 0 and not t["dest"]["p"] and bi == gb:
+            results.append((bi, t, ("call", "glyph_id_array_get", (), bi, None, None)))
+    if not results:
+        return run.anchor_missing(rule, "result of the idRangeOffset != 0 path")
+
+    def from_array(v):
+        return any(x[0] == "call" and (x[1] or "").endswith("glyph_id_array_get") for x in sym.walk(v))
+
+    def uses_delta(v):
+        return any(x[0] == "arg" and x[2] == "id_delta" for x in sym.walk(v))
+    conds = guards.branch_conditions(b, prov)
+    zero_tests = []
+    for tb, fb, op, x, y, sw in conds:
+        if op in ("Eq", "Ne"):
+            xs, ys = sym.strip(x), sym.strip(y)
+            for a, c in ((xs, ys), (ys, xs)):
+                if c[0] == "c" and c[1] == 0 and from_array(a):
+                    zero_tests.append((tb if op == "Ne" else fb, fb if op == "Ne" else tb))     # (non-zero block, zero block)
+    for bi, item, v in results:
+        if not from_array(v) and not (v[0] == "c"):
+            continue
+        if v[0] == "c":
+            continue
+        if not uses_delta(v):
+            # returning the raw array value is right only where it is known to be 0
+            if any(zb is not None and b.dominates(zb, bi) for _nz, zb in zero_tests):
+                run.ok(rule, "a zero array value is returned as is (missing glyph)")
+            else:
+                run.fail(rule, "format4:delta-dropped", "glyph_id_for_id_range_offset returns the glyphIdArray value without idDelta: segments with both "
+                         "idRangeOffset and idDelta non-zero map to the wrong glyph", b.loc(item))
+        else:
+            if any(nz is not None and b.dominates(nz, bi) for nz, _zb in zero_tests):
+                run.ok(rule, "idDelta is added to a non-zero array value")
+            else:
+                run.fail(rule, "format4:delta-on-missing", "glyph_id_for_id_range_offset adds idDelta to the glyphIdArray value without testing it for 0: an entry "
+                         "of 0 (missing glyph) in a segment whose idDelta is not 0 is mapped to glyph idDelta instead of to no glyph", b.loc(item))
+
+
 def check(run, fx, tier, floors=True):
+    if floors or any(b.path == "tables::cmap::Format4::glyph_id_for_id_range_offset" for b in fx.bodies):
+        t06_delta(run, fx)
     import speclayout
     speclayout.rule_layouts(run, fx, "T06-LAYOUT", ["cmap"], floors)
     speclayout.rule_records(run, fx, "T06-REC", ['cmap'], floors)
